@@ -147,6 +147,28 @@ int main(int argc, char** argv) {
                ",\"calls\":" + std::to_string(g_calls - calls0) + ",\"ub\":" + std::to_string(ub | ub2) + "}");
     }
   }
+  // names far longer than any fixed-offset name that merely BEGIN like one: lengths whose low 8 / 16 / 32 bits equal
+  // the length of a real name (a length kept in a narrower integer would see 18, 3 or 4)
+  {
+    long avail_kb = 0;
+    { std::ifstream mi("/proc/meminfo"); std::string k; long v; std::string unit;
+      while (mi >> k >> v) { std::getline(mi, unit); if (k == "MemAvailable:") avail_kb = v; } }
+    const char* heads[] = {"Fixed/UTC+01:00:00", "UTC", "UTC0", "Fixed/UTC-23:59:59"};
+    std::vector<uint64_t> wraps = {256, 65536};
+    if (avail_kb > 16L * 1024 * 1024) wraps.push_back(4294967296ULL);
+    for (uint64_t wlen : wraps)
+      for (const char* h : heads) {
+        if (wlen > 65536 && h[0] == 'U' && h[3] == '0') continue;     // one 4 GiB text per family is enough
+        std::string name(h);
+        name.resize(wlen + strlen(h), h[0] == 'F' ? '0' : 'x');
+        int ub = 0;
+        seconds off(777);
+        bool fok = false;
+        VT_GUARD(ub, fok = FixedOffsetFromName(name, &off));
+        out.emit("{\"e\":\"FixedLong\",\"head\":" + bj(h) + ",\"len\":" + vt::W((vt::i128)name.size()) + ",\"fok\":" + (fok ? "1" : "0") +
+                 ",\"ub\":" + std::to_string(ub) + "}");
+      }
+  }
   std::ifstream in(argv[6]);
   std::string line;
   while (std::getline(in, line)) {
